@@ -88,6 +88,8 @@ def scalar_times_annotated(t):
 def attrs(c):
     at = opsfam.case_attrs(c)
     at["scalar_times_annotated"] = scalar_times_annotated(c["t"])
+    dts = opsfam.dts_in(c["t"])
+    at["mixed_real_complex"] = bool(dts & {"f32", "f64"}) and bool(dts & {"c64", "c128"})
     at["n"] = c["dense"]["r"]
     at["complex"] = bool(opsfam.dts_in(c["t"]) & {"c64", "c128"})
     return at
